@@ -100,6 +100,7 @@ class Trace:
         self.data_ids = {}
         self.last_sock = None
         self.pokes = []            # (time, record id): cache entries the scenario planted itself
+        self.call_no = 0           # number of `Zeroconf.async_send` calls so far: datagrams of one call are one `DNSOutgoing`
         # watchdog: a check must terminate whatever the code under test does
         self.dead = None           # reason the host was silenced, if it was
         self.max_blocks = 4000     # atomic blocks per scenario
@@ -227,7 +228,8 @@ class Trace:
             if src is not tr.host:
                 return
             # the full sockaddr: for IPv6 (address, port, flowinfo, scope id) -- "to that address" includes the scope of a link-local address
-            rec = dict(t=t + T0, to=(addr[0], addr[1]), to_full=tuple(addr), akey=(addr[0],) + tuple(addr[2:]), data=bytes(data), sock=tr.last_sock)
+            rec = dict(t=t + T0, to=(addr[0], addr[1]), to_full=tuple(addr), akey=(addr[0],) + tuple(addr[2:]), data=bytes(data), sock=tr.last_sock,
+                       call=tr.call_no)
             if tr.cur is None:
                 tr.orphans.append(rec)
             else:
@@ -242,6 +244,16 @@ class Trace:
             return sendto
 
         patch(vsim.FakeTransport, "sendto", mk_sendto)
+
+        def mk_send(orig):
+            def async_send(self_, out, *a, **kw):
+                if self_ is zc:
+                    tr.call_no += 1
+                return orig(self_, out, *a, **kw)
+            return async_send
+
+        import zeroconf._core as core
+        patch(core.Zeroconf, "async_send", mk_send)
 
     def uninstall(self):
         for cls, name, orig in reversed(self.saved):
